@@ -213,7 +213,15 @@ func (its *WiredDatatype) updateStateOfDatatype(
 		}
 
 		its.state = model.StateOfDatatype_SUBSCRIBED
-		its.id = ppp.DUID
+		if its.id != ppp.DUID {
+			its.id = ppp.DUID
+			// A rollback restores the meta data of the rollback point. The one taken while preparing to subscribe still
+			// names the provisional identifier (and operation id): a transaction that fails later would bring them back
+			// and the datatype could never sync again. The datatype has just been reset, so this is its new beginning.
+			if rErr := its.ResetTransaction(); rErr != nil {
+				return oldState, its.state, rErr
+			}
+		}
 
 		err = its.wire.OnChangeDatatypeState(its.Datatype, its.state)
 	case model.StateOfDatatype_SUBSCRIBED:
